@@ -1,14 +1,14 @@
 CONSTANTS
   Ids <- Ids2
   Wfs <- Wfs1
-  Statuses <- St3
+  Statuses <- St2
   Confs <- ConfsQuick
   MaxOps = 4
   DelFilters <- MenuQuick
   AllFilters <- AllFQ
   UpHasRun <- TrueOnly
   UpIdle <- FOnly
-  UpStatuses <- UpStQ
+  UpStatuses <- UpStQ2
   UpIdleOps <- KeepOnly
   CountOps = FALSE
   Dev_QueueCountsDeadEntries = FALSE
